@@ -298,6 +298,8 @@ ADV_SHOTS = {
     'flat': {}, 'tail30': {'wind': [[30, 0, None]]}, 'head30': {'wind': [[30, 180, None]]}, 'cross60': {'wind': [[60, 90, None]]},
     'slow': {'mv': 300.0}, 'arc45': {'zero': 45.0, 'mv': 800.0}, 'down30': {'look': -30.0}, 'pellet': {'dm': 'G1', 'bc': 0.03, 'mv': 900.0},
     'vacuum': {'atmo': 'vac'}, 'alt5k': {'atmo': 'icao5k'}, 'hot': {'mv': 3600.0},
+    # air speed more than twice the ground speed (slow projectile into a gale) and the reverse (tail gale)
+    'crawl_head': {'mv': 90.0, 'wind': [[70, 180, None]], '_R': 8.0}, 'crawl_tail': {'mv': 90.0, 'wind': [[50, 0, None]], '_R': 8.0},
     'vertical_slow': {'zero': 90.0, 'mv': 300.0, '_cfg': {'cMinimumVelocity': 0.0}, '_R': 10.0},
     'zero_velocity': {'mv': 0.0, '_cfg': {'cMinimumVelocity': 0.0}, '_R': 10.0},
 }
@@ -457,7 +459,7 @@ def names(cell):
     return {'v': out, 'n': n, 'states': len(cs), 'transitions': n, 'traces': n, 'nt': [name, uname] if len(cs) >= 2 else None, 'obs': [kind, len(cs) > 4]}
 
 
-UNKNOWN = ['', 'foo', 'yards', 'meterz', 'set', 'defaults', '__doc__', '__init__', '__module__', '__dataclass_fields__', 'unit', 'none', '0', 'degree2']
+UNKNOWN = ['', 'foo', 'yards', 'meterz', 'furlong', 'metre', 'Foot.', 'set', 'defaults', '__doc__', '__init__', '__module__', '__dataclass_fields__', 'unit', 'none', '0', 'degree2']
 
 
 def unknown(cell):
@@ -501,6 +503,31 @@ def unknown(cell):
             out.append({'msg': f'_parse_value(2, preferred={name!r}) returned {q!r} for an unknown unit name', 'key': None})
         except Exception:  # noqa
             pass
+    # ... and through a configuration file: an unknown name for a preferred unit or for the unit of the maximum step leaves both where they were
+    import os
+    import shutil
+    import tempfile
+    if "'" not in name and '\n' not in name:
+        tmp = tempfile.mkdtemp(prefix='pybc_verif_')
+        try:
+            path = os.path.join(tmp, 'pybc.toml')
+            with open(path, 'w', encoding='utf-8') as fh:
+                fh.write(f"[pybc.preferred_units]\ndistance = '{name}'\n[pybc.calculator]\nmax_calc_step_size = {{ value = 0.3, units = '{name}' }}\n")
+            pb.reset_globals()
+            before_step = pb.get_global_max_calc_step_size() >> Unit.Foot
+            try:
+                pb.basicConfig(path, suppress_warnings=True)
+            except Exception:  # noqa
+                pass
+            unchanged('a configuration file')
+            after_step = pb.get_global_max_calc_step_size() >> Unit.Foot
+            calc_step = pb.Calculator()._calc._config.max_calc_step_size_feet
+            if abs(after_step - before_step) > 1e-12 or abs(calc_step - before_step) > 1e-12:
+                out.append({'msg': f'configuration file with max_calc_step_size units = {name!r} (unknown): the global step went from {before_step!r} ft to {after_step!r} ft '
+                                   f'(calculators created afterwards: {calc_step!r} ft) instead of staying unchanged', 'key': None})
+        finally:
+            shutil.rmtree(tmp, ignore_errors=True)
+            pb.reset_globals()
     # unknown slot names leave everything unchanged
     try:
         PreferredUnits.set(**{'no_such_slot': 'meter'})
